@@ -647,6 +647,11 @@ func (it *Interp) builtin(fn *ssa.Function, st *State, instr ssa.CallInstruction
 			it.Cfg.Hooks.OnBuiltin(it.ctx(fn, st), instr, b.Name(), args)
 		}
 		if b.Name() == "append" && len(args) > 0 {
+			if v := instr.Value(); v != nil {
+				if hv, ok := it.valueHook(fn, st, v, args...); ok {
+					return []callResult{{heap: st.Heap, ret: hv}}
+				}
+			}
 			if so, ok := args[0].(SliceOf); ok {
 				return []callResult{{heap: st.Heap, ret: so}}
 			}
